@@ -79,8 +79,11 @@ def gen_cases(ctx):
             lam = [rng.choice([0.0, abs(rng.dyadic(0, 3))]) for _ in range(n)]
             v = rng.vec(n, 2.0)
             for j in range(n):
-                if rng.random() < 0.3:
+                c = rng.random()
+                if c < 0.3:
                     v[j] = rng.choice([1, -1]) * lam[j] * γ
+                elif c < 0.45:
+                    v[j] = 0.0
             cases.append(dict(op="l1v", λ=lam, γ=γ, v=v))
         elif kind == "l1c":
             lam = rng.choice([abs(rng.dyadic(0, 3)), rng.posreal(), 0.0])
@@ -88,10 +91,16 @@ def gen_cases(ctx):
             if rng.random() < 0.3:   # exact tie |z| = γλ via a 3-4-5 triangle
                 s = lam * γ / 5.0
                 v[0], v[1] = 3 * s, 4 * s
+            if rng.random() < 0.3: v[-2] = v[-1] = 0.0      # an exactly zero component
             cases.append(dict(op="l1c", λ=lam, γ=γ, v=v))
         elif kind == "l1cv":
             lam = [rng.choice([0.0, abs(rng.dyadic(0, 3))]) for _ in range(n)]
-            cases.append(dict(op="l1cv", λ=lam, γ=γ, v=rng.vec(2 * n, 2.0)))
+            v = rng.vec(2 * n, 2.0)
+            for j in range(n):      # exactly zero components (also where the weight is zero), exact ties |z| = γλ
+                c = rng.random()
+                if c < 0.25: v[2 * j] = v[2 * j + 1] = 0.0
+                elif c < 0.4: v[2 * j], v[2 * j + 1] = 3 * lam[j] * γ / 5.0, 4 * lam[j] * γ / 5.0
+            cases.append(dict(op="l1cv", λ=lam, γ=γ, v=v))
         elif kind == "boxprox":
             lb, ub = gen_box(rng, n)
             v = rng.vec(n, 4.0)
@@ -253,6 +262,7 @@ def oracle(c, o):
                 return "multiplier %d: got %r expected clamp %r" % (i, y[i], exp)
     elif op in ("l1s", "l1v"):
         out = U("out"); h = unhex(o["h"]); γ = c["γ"]
+        if not all(math.isfinite(t) for t in out + [h]): return "l1 prox of a finite input is not finite: out=%r h=%r" % (out, h)
         hexp = 0.0
         for i, v in enumerate(c["v"]):
             lam = c["λ"] if op == "l1s" else c["λ"][i]
@@ -270,6 +280,7 @@ def oracle(c, o):
                 if not close(psf[i], pso[i] - c["v"][i], 1e-9, 8 * ulp(c["v"][i])): return "prox_step fb != out - in"
     elif op in ("l1c", "l1cv"):
         out = U("out"); h = unhex(o["h"]); γ = c["γ"]; hexp = 0.0
+        if not all(math.isfinite(t) for t in out + [h]): return "complex l1 prox of a finite input is not finite: out=%r h=%r" % (out, h)
         for i in range(len(out) // 2):
             lam = c["λ"] if op == "l1c" else c["λ"][i]
             a, b = c["v"][2 * i], c["v"][2 * i + 1]; oa, ob = out[2 * i], out[2 * i + 1]
